@@ -943,9 +943,13 @@ func (ro *RedisOutput) sendCmdsBatch(replayWait usync.WaitCloser, conn client.Re
 	}
 	var pipeline chan *cmdBatcher
 
+	// set when a pipelined batch failed : the run is ending because of that batch, whose commands lie before
+	// lastOffset, so the final flush must not store lastOffset as the resume position
+	var batchFailed atomic.Bool
 	if isPipeline {
 		pipeline = make(chan *cmdBatcher, 2)
 		handleError := func(bat *cmdBatcher, err error) {
+			batchFailed.Store(true)
 			if errors.Is(err, common.ErrMove) || errors.Is(err, common.ErrAsk) || errors.Is(err, common.ErrCrossSlots) {
 				// @TODO split cmdQueue to different slots for executing,
 				if ro.cfg.CanTransaction && ro.cfg.Redis.IsCluster() {
@@ -1205,6 +1209,9 @@ func (ro *RedisOutput) sendCmdsBatch(replayWait usync.WaitCloser, conn client.Re
 				shouldUpdateCP = true
 			}
 		case <-replayWait.Done():
+			if batchFailed.Load() {
+				return replayWait.Error()
+			}
 			if !inTransaction && !transactionBatch {
 				needFlush = true
 				shouldUpdateCP = true
